@@ -4,6 +4,7 @@ import (
 	"fmt"
 	"go/ast"
 	"go/types"
+	"strings"
 )
 
 // ---------------------------------------------------------------------------------------------
@@ -102,6 +103,8 @@ func (l *fieldLoc) store(st *State, v Val) {
 		r.obligeStatic(st, "frame", site, true, l.n, "field write ."+l.fi.name+" on an object allocated in this call")
 	case r.modifiesField(l.fi.name):
 		r.obligeStatic(st, "frame", site, true, l.n, "field write ."+l.fi.name+" permitted by modifies")
+	case r.modifiesParamField(l.ref, l.fi.name):
+		r.obligeStatic(st, "frame", site, true, l.n, "field write ."+l.fi.name+" of a parameter object permitted by modifies")
 	default:
 		r.obligeStatic(st, "frame", site, false, l.n, "field write ."+l.fi.name+" on a pre-existing object, not listed in modifies")
 	}
@@ -165,6 +168,25 @@ func (r *UnitRun) modifiesAllows(o *Obj) bool {
 	}
 	for _, m := range r.unit.Modifies {
 		if m == base || m == base+"[*]" {
+			return true
+		}
+	}
+	return false
+}
+
+// modifiesParamField: the unit's modifies clause has an entry "<param>.<field>" whose parameter (or receiver) is the
+// object ref (as handed in) and whose field is the one written.
+func (r *UnitRun) modifiesParamField(ref, field string) bool {
+	for _, m := range r.unit.Modifies {
+		i := strings.Index(m, ".")
+		if i <= 0 || strings.HasPrefix(m, "*") || strings.Contains(m, "(") {
+			continue
+		}
+		v, ok := r.paramVal[m[:i]]
+		if !ok || v.K != KRef || v.T != ref {
+			continue
+		}
+		if strings.HasSuffix(field, "."+m[i+1:]) {
 			return true
 		}
 	}
